@@ -76,6 +76,16 @@ def value_calls(rnd, es, tier, full_entries=4):
         calls.add((unknown.to_bytes(4, "big"), 36, v))
         if es:
             calls.add((es[0][0].to_bytes(4, "big")[:3], 3, v))
+    # every unmatched-call path with value: 2-byte calldata, a real selector truncated to 1 / 2 / 3 bytes (of a
+    # non-payable and of a payable entry point when there is one): the outcome depends on __default__ alone
+    for v in (2, rnd.choice(odd), rnd.choice(even)):
+        calls.add((b"\xaa\xbb", 2, v))
+        calls.add((b"\xaa\xbb\xcc", 3, v))
+        for pay in (False, True):
+            e = next((x for x in es if bool(x[1]) == pay), None)
+            if e is not None:
+                for k in (1, 2, 3):
+                    calls.add((e[0].to_bytes(4, "big")[:k], k, v))
     return sorted(calls)
 
 
@@ -119,6 +129,7 @@ class GuardSpy:
         self.saved = []
         self.legacy = []      # (strategy code, returned IR)
         self.legacy_fb = []   # IR of __default__
+        self.legacy_ctor = []  # IR of __init__ (same generator function, same guard)
         self.venom = []       # (strategy code, extracted dict or ExtractError)
         lm = importlib.import_module("vyper.codegen.module")
         vm = importlib.import_module("vyper.codegen_venom.module")
@@ -136,8 +147,10 @@ class GuardSpy:
 
         def wrap_fb(func_ast, *a, _o=orig, **kw):
             r = _o(func_ast, *a, **kw)
-            if func_ast._metadata["func_type"].is_fallback:
+            if func_ast.name == "__default__":
                 self.legacy_fb.append(r)
+            elif func_ast.name == "__init__":
+                self.legacy_ctor.append(r)
             return r
         lm._ir_for_fallback_or_ctor = wrap_fb
         for fn, code in VENOM_FNS.items():
@@ -473,9 +486,15 @@ def _arm(stmts):
     return "[" + "; ".join(stmts) + "]"
 
 
-def tie_items(gspy, venom, es, fb, where):
+# decorator text -> code of C07/Mutability.v mut_of_code
+MUT_CODE = {"payable": 0, "nonpayable": 1, "": 1, "view": 2, "pure": 3}
+
+
+def tie_items(gspy, venom, es, fb, where, ctor=None):
     """From one compilation: list of (coq expr evaluating to [1] iff tied, description dict).
-    es: entry points (method_id, payable, min_calldatasize, target, sig); fb: None | False | True."""
+    es: entry points (method_id, payable, min_calldatasize, target, sig); fb: None | falsy (non-payable: undecorated,
+    @nonpayable, @view, @pure) | truthy (@payable) -- payability as computed by the harness from the decorator text;
+    ctor: None | decorator of `__init__` ("payable" / "nonpayable" / "")."""
     items = []
 
     def add(kind, payable, mincds, F, arm, what):
@@ -499,8 +518,23 @@ def tie_items(gspy, venom, es, fb, where):
         fb_arm = legacy_fallback_arm(gspy.legacy_fb[0]) if gspy.legacy_fb else None
     if (fb is None) != (fb_arm is None):
         raise ExtractError(f"__default__ arm: expected {'none' if fb is None else 'one'}, extracted {fb_arm}")
+    def add_m(mut, arm, what):
+        # template instantiated BY DECORATOR in Coq (tie_arm_m -> mut_payable: @view / @pure are non-payable arms)
+        items.append((f"[tie_arm_m 4 {MUT_CODE[mut]} 0 0 {_arm(arm)}]",
+                      dict(where, entry=what, decorator="@" + (mut or "<none>"), extracted_arm=_arm(arm),
+                           payable=(mut == "payable"), min_calldatasize=0,
+                           template=f"tpl_fallback_m (mut_of_code {MUT_CODE[mut]})", kind=4, F=0)))
+
     if fb is not None:
-        add(4, fb, 0, 0, fb_arm, "__default__")
+        if hasattr(fb, "mut"):
+            add_m(fb.mut, fb_arm, "__default__")
+        else:
+            add(4, fb, 0, 0, fb_arm, "__default__")
+    if ctor is not None and not venom:
+        # the constructor's guard is emitted by the same legacy function as the one of __default__
+        if len(gspy.legacy_ctor) != 1:
+            raise ExtractError(f"__init__ arm: expected one, saw {len(gspy.legacy_ctor)}")
+        add_m(ctor, legacy_fallback_arm(gspy.legacy_ctor[0]), "__init__")
     if not es:
         return items
     if code in (0, 1):
